@@ -3,5 +3,6 @@
 package provider
 
 var verifHarnesses = map[string]func(){
-	"VerifC17Callbacks": VerifC17Callbacks,
+	"VerifC16Middleware": VerifC16Middleware,
+	"VerifC17Callbacks":  VerifC17Callbacks,
 }
